@@ -28,6 +28,38 @@ PROPS = {
                 rule="seeded random models x 2-6 assumption lists per solver (all predicate kinds, duplicates, implied, directly contradictory, out-of-domain constants); verdict/core/restoration judged against the enumerator; non-trivial = >=2 solutions or >=1 conflict"),
     "C12": dict(kind="lib", level="exploration", modes=[("c12", 4000, 60000)], floor=500,
                 rule="seeded random models; after every posting prefix the reported bounds of every variable, 3 random views and literal values are compared with the hull of the prefix model's solutions; non-trivial = some prefix tightened a bound"),
+    "C07": dict(kind="lib", level="exploration", modes=[("c07", 1500, 12000)], floor=200,
+                rule="seeded models near the phase transition, each solved under K configurations (quick 8, thorough 40: resolver, minimisation, restart sequence/intervals/coefficients, learned-nogood limits/threshold/sorting, tiny max activity, seed, brancher); solution set of every configuration compared with the enumerator; non-trivial = some configuration had >=3 conflicts"),
+    "C08": dict(kind="lib", level="exploration", modes=[("c08", 1800, 2400)], floor=300,
+                rule="cumulative models (70% canonical, 30% extended regime: zero durations/usages, usage > capacity, negative starts, scaled views, repeated variables, holes) with side constraints; quick: 6 option tuples per model walking the 144-tuple space with stride 37 so that a run covers all 144, thorough: all 144 per model; solution set vs time-point definition, explanation judge on every cumulative event; non-trivial = >=2 solutions or cumulative events observed"),
+    "C09": dict(kind="lib", level="exploration", modes=[("c09", 4200, 42000)], floor=500,
+                rule="one constraint of each of 21 kinds posted as implied_by / reify / negation with the literal free, true or false at posting time, plus side constraints; input-order branchers over random permutations with random value selectors, and the default brancher; solution set vs (r -> c), (r <-> c), complement; non-trivial = >=2 solutions or >=1 conflict"),
+    "C17": dict(kind="lib", level="exploration", modes=[("c17", 4000, 40000)], floor=500,
+                rule="seeded random models with every constraint tagged; hook events Propagation / Conflict / AnalysisReason judged for sufficiency against the tagged constraint's tuple table (untagged nogood events against the model's solution set) and for truth in the state in which the reason is given; non-trivial = >=1 reason checked and >=1 conflict or non-root propagation"),
+    "C18": dict(kind="lib", level="exploration", modes=[("c18", 3080, 30800)], floor=500, exhaustive=True,
+                rule="index i -> (variable selector, value selector) = i mod 154 over the full 11 x 14 matrix, brancher shape (i div 154) mod 5 in {independent, dynamic, alternating, autonomous backup, default}; models with holes, negative values, size-2 domains; half of the runs under random restart/learning options; Decision / NoDecision hook events judged; non-trivial = >=2 decisions"),
+    "C10": dict(kind="lib", level="exploration", modes=[("c10", 3000, 40000)], floor=500,
+                rule="random histories of 4-14 operations on one solver {new variables, post, satisfy, satisfy under assumptions (+/- core extraction), iterate k, optimise (both procedures)}, a quarter of the solves with a termination condition that fires at poll 0-5; every answer judged against a shadow model (posted constraints, solutions blocked by iteration per the documented rule, envelope for objective cuts); non-trivial = history contains >=2 solve operations"),
+    "C11": dict(kind="lib", level="fault_enumeration", modes=[("c11", 600, 4000)], floor=150,
+                rule="per model and entry point (satisfy / iterate / optimise sat-unsat / optimise unsat-sat, by index mod 4): uninterrupted run counts N polls, then the run is repeated on an identically seeded fresh solver with the termination condition firing at poll k for k = 0, s, 2s, ... < N (s = max(1, N div 40) quick, N div 400 thorough) and resumed without interruption; non-trivial = N >= 3 and >= 2 runs actually fired"),
+    "C16": dict(kind="lib", level="exploration", modes=[("c16", 6000, 90000)], floor=1000,
+                rule="single-constraint models (12 kinds by index) over domains of <= 3 values placed near 0, 2^15, 2^16, 46340, 2^30, +-(2^31-1) with scales up to 65536 and offsets / right-hand sides up to 2^31-1; exact i128 enumeration gives the solution set; post-time errors, root bounds and the iterated solution set are compared; each case labelled with magnitude classes computed from the input in i128; every case is non-trivial (large-magnitude arithmetic at post time)"),
+    "C06": dict(kind="lib", level="exploration", modes=[("c06", 1800, 20000)], floor=200, case_timeout=30,
+                rule="unsatisfiable models (index mod 5 < 3) and optimisation runs (both procedures, min/max) with DRCP logging in scaffold / full / hinted mode (index mod 3), minimisation on/off, all variables named, every taggable constraint tagged; own parser + checker: codes defined, tagged inferences vs the constraint's tuple table, untagged ones vs the solution set (objective cuts classified against the callback values), nogoods implied by the model and (full/hinted) derivable by domain-based reverse unit propagation, conclusion; non-trivial = proof has >=3 steps"),
+    "C19": dict(kind="lib", level="exploration", modes=[("c19", 20000, 400000)], floor=5000,
+                rule="random step sequences (inferences with/without premises, conclusion, tag, label; nogoods with none / empty / non-empty hints incl. the empty nogood; deletions; both conclusions; codes up to +-(2^31-1), ids up to 2^64-1) written by ProofWriter and read back by ProofReader; literal definitions with int/bool atomics over random identifiers and 64-bit values incl. the extremes written and parsed back; !!atomic == atomic; every case is non-trivial"),
+    "C13": dict(kind="cli", level="exploration", fn="case_fzn", mode="fzn", counts=(1200, 12000), floor=300, engine="cli-monitors",
+                technique="runtime monitoring: black-box oracle (own FlatZinc semantics + brute force) over stdout of the rebuilt binary",
+                rule="seeded FlatZinc text over 48 builtin spellings of post_constraints.rs, range / set-typed / aliased / fixed declarations, parameter arrays, output arrays, constants as arguments, int_search / bool_search annotations, satisfy / minimize / maximize, flags -a, -f, both optimisation strategies, random cumulative options; every printed block must extend to a solution, -a must print exactly the projection of all solutions plus the completeness line, UNSAT marker iff no solution, last block optimal; non-trivial = the model has >=2 solutions"),
+    "C14": dict(kind="cli", level="exploration", fn="case_cnf", mode="cnf", counts=(500, 6000), floor=150, engine="cli-monitors",
+                technique="runtime monitoring: brute-force verdict, model-line check, own forward RUP checker on the DRAT file, metamorphic layouts",
+                rule="seeded k-CNF with 0-14 variables (half near the 3-SAT threshold; empty formula, empty / unit / duplicate / tautological clauses) each rendered in 8 layouts (comments between and inside clauses, line breaks inside clauses, tabs / double blanks, header spacing, CRLF, no trailing newline); verdict vs brute force, v line total and satisfying, DRAT lemmas checked by forward reverse-unit-propagation and ending in the empty clause, same verdict in every layout; non-trivial = >=3 clauses over >=2 variables"),
+    "C15": dict(kind="cli", level="exploration", fn="case_wcnf", mode="wcnf", counts=(1200, 12000), floor=300, engine="cli-monitors",
+                technique="runtime monitoring: brute-force optimum vs the o / s / v lines of the rebuilt binary, both encodings",
+                rule="seeded WCNF with 1-8 variables: 55% plain (no repeated variable in a clause, no empty clause), 45% degenerate (empty / duplicate / unit soft clauses, repeated variables, soft clauses decided by hard units), weights 1-50 or uniform; generalized totalizer always, cardinality network on uniform-weight instances; s line, last o line, model cost and hard clauses vs brute force, o lines strictly decreasing; non-trivial = >=2 soft clauses and satisfiable hard part"),
+    "C20": dict(kind="c20", level="exploration", counts=(400, 4000), lib_counts=(1500, 20000), floor=300, engine="cli-monitors",
+                technique="runtime monitoring: repetition in separate processes under perturbation (fresh hash seeds / ASLR, environment size, parallel load); byte equality",
+                rule="library: each generated case (random options / brancher, iterate or optimise) is run in two separate processes and the digest of (decisions, learned nogoods, restarts, solutions in order, verdict, poll count, event statistics) is compared; CLI: CNF (+DRAT), WCNF, FlatZinc (+DRCP proof and .lits in all three proof types) inputs are each run 3 (quick) or 8 (thorough) times in fresh processes with different environment sizes, with -s statistics; stdout with wall-clock fields masked and every proof file must be byte-identical; non-trivial = run made >=2 decisions / printed >=3 lines"),
 }
 
 
@@ -39,7 +71,129 @@ def run(prop, tier, seed):
     spec = PROPS[prop]
     if spec["kind"] == "lib":
         return run_lib(prop, spec, tier, seed)
+    if spec["kind"] == "cli":
+        return run_cli_prop(prop, spec, tier, seed)
+    if spec["kind"] == "c20":
+        return run_c20(prop, spec, tier, seed)
     raise SystemExit("unknown kind")
+
+
+CLI_ASSUMPTIONS = [
+    "the binary is rebuilt from /repo's working tree (release profile, LTO off for build speed) by every run",
+    "reference semantics of DIMACS / WDIMACS / FlatZinc builtins are the checker's own (pylib/climon.py) and ground truth is brute force over <= 14 Boolean / a few small integer variables",
+    "held on the executions that were run; a 20 s wall-clock limit per CLI call is a watchdog, not a verdict on its own (reported as a failure of kind timeout only when reproduced)",
+]
+
+
+def run_cli_prop(prop, spec, tier, seed):
+    import tempfile, shutil
+    import climon
+    bt = orch.build_cli()
+    agg = Agg(prop, tier, seed, spec["level"])
+    agg.extra["build_s"] = round(bt, 1)
+    findings = orch.load_findings(prop)
+    work = tempfile.mkdtemp(prefix="vcli-")
+    try:
+        replay_cli_findings(agg, findings, spec, work)
+        n = spec["counts"][0 if tier == "quick" else 1]
+        results = climon.run_cases(getattr(climon, spec["fn"]), seed, spec["mode"], n, work)
+        # a timeout only counts when it reproduces
+        for r in results:
+            if r["status"] == "fail" and r.get("kind") == "timeout":
+                rd = os.path.join(work, "retry%d" % r["i"])
+                os.makedirs(rd, exist_ok=True)
+                again = getattr(climon, spec["fn"])(climon.rng_for(seed, spec["mode"], r["i"]), r["i"], rd)
+                if again["status"] != "fail" or again.get("kind") != "timeout":
+                    agg.inconclusive.append({"index": r["i"], "what": "timeout", "note": "did not reproduce"})
+                    r.update(again)
+        agg.add_results(spec["mode"], results, findings)
+    finally:
+        shutil.rmtree(work, ignore_errors=True)
+    for fid in sorted(agg.known_hits):
+        agg.print_known(next(f for f in findings if f["id"] == fid))
+    return agg.finish(spec["rule"], spec["floor"], CLI_ASSUMPTIONS)
+
+
+def replay_cli_findings(agg, findings, spec, work):
+    import climon
+    for f in findings:
+        w = f.get("witness")
+        if not w:
+            continue
+        data = json.load(open(os.path.join(orch.VERIF, w["file"])))
+        res = replay_cli_case(spec, data, os.path.join(work, "wit-" + f["id"]))
+        res["mode"] = spec.get("mode")
+        if orch.finding_matches(f, res):
+            agg.known_hits[f["id"]] = agg.known_hits.get(f["id"], 0) + 1
+            agg.print_known(f)
+        else:
+            agg.notes.append("finding %s: witness no longer fails as listed (%s %s)" % (f["id"], res.get("status"), res.get("kind", "")))
+            log("NOTE: finding %s did not reproduce on this tree (it may have been fixed)" % f["id"])
+
+
+def replay_cli_case(spec, data, d):
+    import climon
+    os.makedirs(d, exist_ok=True)
+    mode = data.get("mode") or spec.get("mode")
+    if mode == "cnf":
+        return climon.replay_cnf(data, d)
+    if mode == "wcnf":
+        return climon.replay_wcnf(data, d)
+    # fzn / repro cases are regenerated from their coordinates (generator state is part of the oracle)
+    fn = {"fzn": climon.case_fzn}.get(mode)
+    if fn is None:
+        fn = lambda r, i, dd: climon.case_repro(r, i, dd, 3)
+    return fn(climon.rng_for(data["seed"], mode, data["index"]), data["index"], d)
+
+
+def run_c20(prop, spec, tier, seed):
+    import tempfile, shutil
+    import climon
+    b1 = orch.build_harness()
+    b2 = orch.build_cli()
+    agg = Agg(prop, tier, seed, spec["level"])
+    agg.extra["build_s"] = round(b1 + b2, 1)
+    findings = orch.load_findings(prop)
+    q = 0 if tier == "quick" else 1
+    # library part: two passes in separate processes (different job counts = different parallel load)
+    n = spec["lib_counts"][q]
+    pass1, inc1, _ = orch.run_pool("c20", seed, tier, n, 20)
+    env_pad = dict(orch.ENV)
+    orch.ENV["VERIF_PAD"] = "y" * 4099
+    pass2, inc2, _ = orch.run_pool("c20", seed, tier, n, 20, jobs=max(2, orch.NCPU // 3))
+    orch.ENV.pop("VERIF_PAD", None)
+    d2 = {r["i"]: r for r in pass2}
+    results = []
+    differing_seed_changes = 0
+    for r in pass1:
+        o = d2.get(r["i"])
+        if o is None:
+            continue
+        dg1 = next((x for x in r.get("notes", []) if x.startswith("digest=")), None)
+        dg2 = next((x for x in o.get("notes", []) if x.startswith("digest=")), None)
+        r["counters"] = dict(r.get("counters", {}))
+        r["counters"]["digests_compared"] = 1
+        if dg1 != dg2:
+            r["status"] = "fail"
+            r["kind"] = "trace-differs-between-processes"
+            r["detail"] = "library case %d: %s vs %s (decisions / nogoods / solutions / statistics digest)" % (r["i"], dg1, dg2)
+        results.append(r)
+    agg.add_results("c20", results, findings)
+    agg.extra["library_incidents"] = len(inc1) + len(inc2)
+    # sanity that the comparison is not vacuous: neighbouring cases have different digests
+    digs = {next((x for x in r.get("notes", []) if x.startswith("digest=")), None) for r in pass1}
+    agg.extra["distinct_library_digests"] = len(digs)
+    # CLI part
+    runs = 3 if tier == "quick" else 8
+    work = tempfile.mkdtemp(prefix="vrepro-")
+    try:
+        res = climon.run_cases(lambda r, i, d: climon.case_repro(r, i, d, runs), seed, "repro", spec["counts"][q], work)
+        agg.add_results("repro", res, findings)
+    finally:
+        shutil.rmtree(work, ignore_errors=True)
+    for fid in sorted(agg.known_hits):
+        agg.print_known(next(f for f in findings if f["id"] == fid))
+    return agg.finish(spec["rule"], spec["floor"], CLI_ASSUMPTIONS + LIB_ASSUMPTIONS[1:2])
 
 
 def run_lib(prop, spec, tier, seed):
@@ -79,4 +233,20 @@ def replay(prop, path):
             return 1
         log("replay: case passes on this tree")
         return 0
-    raise SystemExit("unknown kind")
+    import tempfile, shutil
+    orch.build_cli()
+    if spec["kind"] == "c20" and data.get("mode") == "c20":
+        orch.build_harness()
+        log("replay of a library reproducibility case: re-run ./check C20 quick with VERIF_SEED=%s" % data.get("seed"))
+        return 0
+    work = tempfile.mkdtemp(prefix="vreplay-")
+    try:
+        res = replay_cli_case(spec, data, work)
+    finally:
+        shutil.rmtree(work, ignore_errors=True)
+    log(json.dumps({k: res.get(k) for k in ("status", "kind", "detail", "classes", "config")}, indent=1))
+    if res["status"] == "fail":
+        log("VIOLATION property=%s replay=%s" % (prop, path))
+        return 1
+    log("replay: case passes on this tree")
+    return 0
